@@ -35,3 +35,33 @@ pub fn digits(len: usize, pool: u64, pool2: u64) -> String {
     let s = format!("{:020}{:020}", pool, pool2);
     s[s.len() - len.min(40)..].to_string()
 }
+
+/// lengths / counts in `0..=max` that defects like to key on: numbers the library's own source
+/// mentions (and their neighbours), powers of two and of ten and their neighbours, and - half of
+/// the time - any value of the range
+pub fn interesting_len(max: usize) -> BoxedStrategy<usize> {
+    let mut special: Vec<usize> = crate::engine::dict::ints_in(0, max as u64).into_iter().map(|n| n as usize).collect();
+    let mut p = 1usize;
+    while p <= max.saturating_add(1) {
+        special.extend([p.saturating_sub(1), p, p + 1]);
+        p = p.saturating_mul(2);
+    }
+    let mut p = 10usize;
+    while p <= max.saturating_add(1) {
+        special.extend([p - 1, p, p + 1]);
+        p = p.saturating_mul(10);
+    }
+    special.extend([0, 1, max]);
+    special.retain(|n| *n <= max);
+    special.sort();
+    special.dedup();
+    prop_oneof![1 => prop::sample::select(special), 1 => 0..=max].boxed()
+}
+
+/// strings of up to `max_len` characters over a small alphabet: `k` symbols picked from `pool`
+/// (so that short multi-character sequences of structural characters come up by chance)
+pub fn small_alphabet(pool: &'static [char], k: usize, max_len: usize) -> BoxedStrategy<String> {
+    (prop::collection::vec(0..pool.len(), k), prop::collection::vec(any::<u16>(), 0..=max_len))
+        .prop_map(move |(syms, sel)| sel.iter().map(|s| pool[syms[idx(*s, syms.len())]]).collect::<String>())
+        .boxed()
+}
